@@ -104,7 +104,8 @@ class Model:
             return "ALTER TABLE %s ADD %s int REFERENCES crm.customers (id)%s;" % (ref, nm, rng.choice(["", " ON DELETE CASCADE"]))
         if kind == "readd":
             # a column that an earlier statement dropped is added again (as a new column, at the end)
-            gone = [c for c in t.get("dropped", []) if norm(c) not in [norm(x["name"]) for x in t["cols"]]]
+            # ... or a name that an earlier RENAME COLUMN gave up ("keep the old data": RENAME price TO price_old; ADD price)
+            gone = [c for c in t.get("dropped", []) + t.get("renamed_away", []) if norm(c) not in [norm(x["name"]) for x in t["cols"]]]
             if not gone:
                 return None
             nm = rng.choice(gone)
@@ -131,6 +132,7 @@ class Model:
             for x in t["cols"]:
                 if x["name"] == c:
                     x["name"] = nm
+            t.setdefault("renamed_away", []).append(c)
             a.setdefault("renamed_columns", []).append({"from": sp, "to": nm})
             return "ALTER TABLE %s RENAME COLUMN %s TO %s;" % (ref, sp, nm)
         if kind == "modify":
@@ -410,6 +412,17 @@ def run_shard(ctx):
             case["gen"] = "triple"
             check_case(ctx, case)
             ctx.obs["kind_triples"] += 1
+    # a name given up by RENAME COLUMN / DROP COLUMN is added again, then any third statement
+    for first in ("rename", "drop"):
+        for k3 in KINDS:
+            for rep in range(3 if ctx.tier == "quick" else 12):
+                i += 1
+                if not ctx.mine(i):
+                    continue
+                case = gen_history(ctx.sub_rng("readd", i), [(None, "t")], [(first, 0), ("readd", 0), (k3, 0)], styles="p", ncols=2 + rep % 3)
+                case["gen"] = "readd_after_" + first
+                check_case(ctx, case)
+                ctx.obs["names_added_again_after_" + first] += 1
     for j in range(ctx.budget(1500, 50000)):
         case = gen_history(rng)
         case["gen"] = "random"
